@@ -4,6 +4,7 @@ import (
 	"bufio"
 	"bytes"
 	"context"
+	"encoding/base64"
 	"encoding/json"
 	"fmt"
 	"hash/fnv"
@@ -621,6 +622,110 @@ func gateBurst(seed int64, jsonMode bool, G, M int) (string, int, error) {
 	return "", G * M, nil
 }
 
+// rotationBurst: G browsers, each holding only the remember cookie of its own account, hit the site M
+// times each at once; every request is re-authenticated by the middleware and handed a fresh cookie.
+// Every cookie ever handed out names its own account and carries a nonce nobody else was given.
+func rotationBurst(seed int64, G, M int) (string, int, error) {
+	srv, err := newC20Server(seed, false, true, false)
+	if err != nil {
+		return "", 0, err
+	}
+	defer srv.close()
+	type issued struct{ pid, val string }
+	var mu sync.Mutex
+	var all []issued
+	var problems []string
+	note := func(p string) {
+		mu.Lock()
+		if len(problems) < 3 {
+			problems = append(problems, p)
+		}
+		mu.Unlock()
+	}
+	var wg sync.WaitGroup
+	for g := 0; g < G; g++ {
+		pid := fmt.Sprintf("rot%d@site%d.test", g, g)
+		srv.store.Put(&world.User{PID: pid, Email: pid, Password: sim.Hash4("Rotat1on!pw"), Confirmed: true})
+		wg.Add(1)
+		go func(g int, pid string) {
+			defer wg.Done()
+			hc := &http.Client{CheckRedirect: func(*http.Request, []*http.Request) error { return http.ErrUseLastResponse }, Timeout: 30 * time.Second}
+			rm := ""
+			req, _ := http.NewRequest("POST", srv.srv.URL+"/auth/login", strings.NewReader(url.Values{"email": {pid}, "password": {"Rotat1on!pw"}, "rm": {"true"}}.Encode()))
+			req.Header.Set("Content-Type", "application/x-www-form-urlencoded")
+			if resp, err := hc.Do(req); err == nil {
+				for _, ck := range resp.Cookies() {
+					if ck.Name == "rm" {
+						rm = ck.Value
+					}
+				}
+				io.Copy(io.Discard, resp.Body)
+				resp.Body.Close()
+			}
+			if rm == "" {
+				note(fmt.Sprintf("%s: login with rm=true set no remember cookie", pid))
+				return
+			}
+			mu.Lock()
+			all = append(all, issued{pid, rm})
+			mu.Unlock()
+			for i := 0; i < M; i++ {
+				req, _ := http.NewRequest("GET", srv.srv.URL+"/public", nil)
+				req.AddCookie(&http.Cookie{Name: "rm", Value: rm}) // no session cookie: the browser was restarted
+				resp, err := hc.Do(req)
+				if err != nil {
+					note(pid + ": " + err.Error())
+					return
+				}
+				body, _ := io.ReadAll(resp.Body)
+				resp.Body.Close()
+				next := ""
+				for _, ck := range resp.Cookies() {
+					if ck.Name == "rm" && ck.Value != "" {
+						next = ck.Value
+					}
+				}
+				if !strings.Contains(string(body), "uid="+pid) || next == "" || next == rm {
+					note(fmt.Sprintf("%s: request %d with its live remember cookie was answered %q with cookie %q", pid, i, trunc(string(body), 60), trunc(next, 20)))
+					return
+				}
+				rm = next
+				mu.Lock()
+				all = append(all, issued{pid, rm})
+				mu.Unlock()
+			}
+		}(g, pid)
+	}
+	wg.Wait()
+	if len(problems) > 0 {
+		return "rotation under concurrency: " + strings.Join(problems, "; "), len(all), nil
+	}
+	seen := map[string]string{}
+	for _, is := range all {
+		b, err := base64.StdEncoding.DecodeString(is.val)
+		if err != nil {
+			if un, e2 := url.QueryUnescape(is.val); e2 == nil {
+				b, err = base64.StdEncoding.DecodeString(un)
+			}
+		}
+		if err != nil {
+			b, err = base64.URLEncoding.DecodeString(is.val)
+		}
+		if err != nil || len(b) < 34 {
+			return fmt.Sprintf("cookie %q of %s does not decode", trunc(is.val, 20), is.pid), len(all), nil
+		}
+		if string(b[:len(b)-33]) != is.pid {
+			return fmt.Sprintf("a cookie handed to %s names %q", is.pid, string(b[:len(b)-33])), len(all), nil
+		}
+		nonce := string(b[len(b)-32:])
+		if other, dup := seen[nonce]; dup {
+			return fmt.Sprintf("the same 32-byte remember nonce was handed out twice (to %s and to %s)", other, is.pid), len(all), nil
+		}
+		seen[nonce] = is.pid
+	}
+	return "", len(all), nil
+}
+
 func c20Unit(c *RunCtx, unit int) {
 	r := Rng(c.Seed, "C20", unit)
 	useSMTP := unit%2 == 1
@@ -646,6 +751,7 @@ func c20Unit(c *RunCtx, unit int) {
 		c.Stats.Inconclusive = append(c.Stats.Inconclusive, "solo script did not reach the states it is meant to reach: "+strings.Join(ref, " || "))
 		return
 	}
+	soloErrs := errorLogShapes(solo.logs.String())
 	srv, cs, err := c20RunClients(r.Int63(), n, useSMTP, true, jsonMode)
 	if err != nil {
 		c.Stats.Inconclusive = append(c.Stats.Inconclusive, "server: "+err.Error())
@@ -653,6 +759,15 @@ func c20Unit(c *RunCtx, unit int) {
 	}
 	time.Sleep(20 * time.Millisecond) // let trailing mail goroutines finish under the race detector
 	srv.close()
+	// the library's own error log: whatever it reports as failed under concurrency it also reported when
+	// the script ran alone (the mailers, stores and renderers of this harness never fail by themselves)
+	for shape, line := range errorLogShapes(srv.logs.String()) {
+		if _, ok := soloErrs[shape]; !ok {
+			v := vio("C20", "library-reported-a-failure-only-under-concurrency|"+shape, "with %d concurrent clients the library logged an error it does not log when the same script runs alone: %s", n, trunc(line, 300))
+			c.Stats.Violations = append(c.Stats.Violations, sim.VioRec{Violation: *v, Index: unit})
+			return
+		}
+	}
 	// interleaving signature: hash of the global order of storer operations by account
 	h := fnv.New64a()
 	srv.omu.Lock()
@@ -713,6 +828,28 @@ func c20Unit(c *RunCtx, unit int) {
 			c.Stats.Violations = append(c.Stats.Violations, sim.VioRec{Violation: *v, Index: unit})
 			return
 		}
+	}
+	// remember cookies minted in parallel: rotation after rotation by 8 cookie-only browsers at once
+	if msg, n, err := rotationBurst(r.Int63(), 8, tierN(c.Tier, 60, 400)); err != nil {
+		c.Stats.Inconclusive = append(c.Stats.Inconclusive, "server: "+err.Error())
+		return
+	} else {
+		c.Stats.Add("remember-cookies-minted-concurrently", n)
+		c.Stats.Evaluations += n
+		if msg != "" {
+			v := vio("C20", "remember-cookie-minting-under-concurrency", "%s", msg)
+			c.Stats.Violations = append(c.Stats.Violations, sim.VioRec{Violation: *v, Index: unit})
+			return
+		}
+	}
+	// the token mint itself, hammered from 16 goroutines with nothing else to synchronise them: every
+	// nonce unique, every token naming the pid it was minted for (and the race detector watching)
+	if msg, n := mintBurst(16, 3000); msg != "" {
+		v := vio("C20", "remember-token-mint-under-concurrency", "%s", msg)
+		c.Stats.Violations = append(c.Stats.Violations, sim.VioRec{Violation: *v, Index: unit})
+		return
+	} else {
+		c.Stats.Add("remember-tokens-minted-in-parallel", n)
 	}
 	// C11's handler programs, concurrently, under the race detector
 	var wg sync.WaitGroup
@@ -791,7 +928,7 @@ func C20RaceReports(scratch string) (lib []string, harnessOnly int, total int) {
 func init() {
 	register(&Check{
 		ID: "C20", Level: "exploration",
-		Rule:  "-race build. One initialised instance behind a real net/http server on loopback, shipped defaults everywhere (router, body reader, responder, redirector, error handler, defaults.Logger on a locked writer, defaults.LogMailer on a locked writer in even units and defaults.SMTPMailer talking to an in-process fake SMTP server in odd units), MailNoGoroutine=false so the library's own mail goroutines run. 4/16/48 clients, each with its own account and cookie jar, run the script register → login-unconfirmed → confirm (token read from the mail) → wrong login → login(rm) → protected → TOTP setup + 4x QR image (pixels must encode this session's own secret) → otp add → logout → otp login → otp replay → logout → recover start → recover end (token from the mail) → old password → new password(rm) → remember re-auth → protected → logout → protected, concurrently (form mode in half of the units, JSON/API mode — JSON bodies in, JSON 'redirects' out — in the other half), with seeded yields/µs-sleeps injected at every storer and session-store operation and at SMTP accept. Oracles: (1) zero race-detector reports with a frame in github.com/volatiletech/authboss/v3 (GORACE halt_on_error=0 log_path, blocks counted from the logs, deduplicated by the innermost library frame pair); a report without a library frame makes the run inconclusive; (2) every client's transcript (status, Location, content type, body, its server-side session, jar keys, its token-row count, its own storage row after every step; identifiers/tokens/hashes/timestamps canonicalised) equals the transcript of the same script run alone against a fresh instance; (3) 8 anonymous clients x 120 requests refused concurrently by ONE redirect-mode access middleware must each be sent to the login page with their own path and query; (4) the C11 handler programs run in 8 goroutines concurrently; (5) in the LogMailer's output the writes of each Mailer.Send call are contiguous (two users' messages never mix). distinct_nontrivial = distinct interleaving signatures (hash of the global order of storer operations by account).",
+		Rule:  "-race build. One initialised instance behind a real net/http server on loopback, shipped defaults everywhere (router, body reader, responder, redirector, error handler, defaults.Logger on a locked writer, defaults.LogMailer on a locked writer in even units and defaults.SMTPMailer talking to an in-process fake SMTP server in odd units), MailNoGoroutine=false so the library's own mail goroutines run. 4/16/48 clients, each with its own account and cookie jar, run the script register → login-unconfirmed → confirm (token read from the mail) → wrong login → login(rm) → protected → TOTP setup + 4x QR image (pixels must encode this session's own secret) → otp add → logout → otp login → otp replay → logout → recover start → recover end (token from the mail) → old password → new password(rm) → remember re-auth → protected → logout → protected, concurrently (form mode in half of the units, JSON/API mode — JSON bodies in, JSON 'redirects' out — in the other half), with seeded yields/µs-sleeps injected at every storer and session-store operation and at SMTP accept. Oracles: (1) zero race-detector reports with a frame in github.com/volatiletech/authboss/v3 (GORACE halt_on_error=0 log_path, blocks counted from the logs, deduplicated by the innermost library frame pair); a report without a library frame makes the run inconclusive; (2) every client's transcript (status, Location, content type, body, its server-side session, jar keys, its token-row count, its own storage row after every step; identifiers/tokens/hashes/timestamps canonicalised) equals the transcript of the same script run alone against a fresh instance; (3) 8 anonymous clients x 120 requests refused concurrently by ONE redirect-mode access middleware must each be sent to the login page with their own path and query; (4) the C11 handler programs run in 8 goroutines concurrently; (5) 8 cookie-only browsers rotate their remember cookies 60 (thorough: 400) times each at once: every cookie names its own account, every nonce is handed out once; (6) the library logs no error under concurrency that it does not log when the script runs alone; (7) in the LogMailer's output the writes of each Mailer.Send call are contiguous (two users' messages never mix). distinct_nontrivial = distinct interleaving signatures (hash of the global order of storer operations by account).",
 		Units: func(t string) int { return tierN(t, 12, 120) },
 		Run:   c20Unit,
 		Floors: func(t string) map[string]int {
@@ -799,4 +936,23 @@ func init() {
 		},
 		Assumptions: []string{"the race detector only sees accesses that actually happen in a run; schedules are those the Go scheduler plus injected yields produce", "bcrypt cost 4; no 2FA enrolment in the script (cost-10 x10 hashing under -race)"},
 	})
+}
+
+var reLogNoise = regexp.MustCompile(`[0-9]+|client[0-9]+@site[0-9]+\.test|[A-Za-z0-9_-]{20,}=*`)
+
+// errorLogShapes returns the error-level lines of the shipped defaults.Logger's output, keyed by
+// their shape (numbers, identifiers and tokens blanked).
+func errorLogShapes(log string) map[string]string {
+	out := map[string]string{}
+	for _, l := range strings.Split(log, "\n") {
+		if !strings.Contains(l, "[EROR]") {
+			continue
+		}
+		shape := reLogNoise.ReplaceAllString(l, "#")
+		if len(shape) > 90 {
+			shape = shape[:90]
+		}
+		out[strings.ReplaceAll(shape, "|", "/")] = l
+	}
+	return out
 }
